@@ -368,6 +368,15 @@ struct snapraid_file* file_alloc(unsigned block_size, const char* sub, data_off_
 	struct snapraid_file* file;
 	block_off_t i;
 
+	/* the number of blocks must fit in a block_off_t, or it's silently truncated */
+	if ((size + block_size - 1) / block_size > (data_off_t)0xFFFFFFFF) {
+		/* LCOV_EXCL_START */
+		log_fatal("The file '%s' of %" PRIu64 " bytes has too many blocks of %u bytes.\n", sub, (uint64_t)size, block_size);
+		log_fatal("Use a bigger 'blocksize' in the configuration file, or exclude the file.\n");
+		exit(EXIT_FAILURE);
+		/* LCOV_EXCL_STOP */
+	}
+
 	file = malloc_nofail(sizeof(struct snapraid_file));
 	file->sub = strdup_nofail(sub);
 	file->size = size;
